@@ -308,6 +308,8 @@ impl<T: Trace + ?Sized> Gc<T> {
     #[allow(clippy::inline_always)]
     pub(crate) fn inner_ptr(&self) -> NonNull<GcBox<T>> {
         debug_assert!(finalizer_safe());
+        #[cfg(boa_verif)]
+        crate::verif::on_deref(self.inner_ptr.as_ptr().cast::<()>() as usize);
         self.inner_ptr
     }
 
